@@ -98,6 +98,7 @@ let parse_leaf t : leaf =
   | "en" -> LEnum (next_z t) | "f32" -> LF32 (next_n t) | "f64" -> LF64 (next_n t)
   | "i32" -> LI32 (next_z t) | "i64" -> LI64 (next_z t)
   | "oct" -> LOctets (next_bytes t) | "time" -> LTime (next_z t)
+  | "octz" -> let n = int_of_string ("0x" ^ next t) in LOctets (List.init n (fun _ -> btab.(0)))
   | "u32" -> LU32 (next_n t) | "u64" -> LU64 (next_n t) | "utf" -> LUtf8 (next_bytes t)
   | s -> raise (Parse ("leaf kind " ^ s))
 
@@ -200,6 +201,44 @@ let parse_hop t : hop =
 
 let lim = ref 32
 
+let parse_history t =
+  let start = (match next t with
+    | "NEW" -> let cmd = next_n t in let app = next_n t in let fl = next_n t in let hbh = next_n t in let e2e = next_n t in
+               HNew (cmd, app, fl, hbh, e2e)
+    | "DEC" -> HDecode (next_bytes t)
+    | s -> raise (Parse ("hstart " ^ s))) in
+  let k = next_int t in
+  let ops = parse_list t parse_hop k in
+  (start, ops)
+
+let all_tys = [TAddress; TIPv4; TIPv6; TIdentity; TUri; TEnum; TF32; TF64; TGrouped; TI32; TI64; TOctets; TTime; TU32; TU64; TUtf8]
+
+let rec pr_getters b (a : avp) =
+  Buffer.add_char b '[';
+  List.iter (fun ty -> Buffer.add_char b (match get_typed ty a with Some _ -> '1' | None -> '0')) all_tys;
+  Buffer.add_char b '|';
+  let rendered = ref false in
+  List.iter (fun ty ->
+    if not !rendered then
+      match get_typed ty a with
+      | Some v ->
+          rendered := true;
+          (match group_members v with
+           | Some ms ->
+               Buffer.add_string b "G,"; Buffer.add_string b (string_of_int (List.length ms));
+               List.iter (fun x -> Buffer.add_char b ','; pr_getters b x) ms
+           | None ->
+               (match v with
+                | VLeaf l -> let b2 = Buffer.create 32 in Buffer.add_string b2 "L "; pr_leaf b2 l;
+                    Buffer.add_string b (String.concat "," (String.split_on_char ' ' (Buffer.contents b2)))
+                | VGrp _ -> Buffer.add_char b '?'))
+      | None -> ()) all_tys;
+  if not !rendered then Buffer.add_char b '?';
+  Buffer.add_char b ']'
+
+let rec index_of_phys (x : avp) (l : avp list) (i : int) : int option =
+  match l with [] -> None | y :: ys -> if y == x then Some i else index_of_phys x ys (i + 1)
+
 let pr_enc b (m : msg) =
   match enc_msg m with
   | Ok bs -> Buffer.add_string b " ENC "; Buffer.add_string b (tok_of_bytes bs)
@@ -232,19 +271,60 @@ let handle (line : string) : string =
        Hashtbl.replace dicts id (drun ops); Buffer.add_string b "OK"
    | "H" ->
        let ds = get_dict (next t) in
-       let start = (match next t with
-         | "NEW" -> let cmd = next_n t in let app = next_n t in let fl = next_n t in let hbh = next_n t in let e2e = next_n t in
-                    HNew (cmd, app, fl, hbh, e2e)
-         | "DEC" -> HDecode (next_bytes t)
-         | s -> raise (Parse ("hstart " ^ s))) in
-       let k = next_int t in
-       let ops = parse_list t parse_hop k in
+       let (start, ops) = parse_history t in
        (match hstart_msg (nat_of_int !lim) ds.ds_avps start with
         | Ok m0 ->
             let (m, oks) = hrun ds.ds_avps m0 ops in
             Buffer.add_string b "R ok ";
             Buffer.add_string b (if oks = [] then "-" else String.concat "" (List.map bool01 oks));
             Buffer.add_char b ' '; pr_msg b m; pr_enc b m; pr_oracle b ds m None
+        | Err -> Buffer.add_string b "R err"
+        | Panic -> Buffer.add_string b "PANIC"
+        | OutOfFuel -> Buffer.add_string b "OUTOFFUEL")
+   | "G" ->
+       let ds = get_dict (next t) in
+       let (start, ops) = parse_history t in
+       (match hstart_msg (nat_of_int !lim) ds.ds_avps start with
+        | Ok m0 ->
+            let (m, _) = hrun ds.ds_avps m0 ops in
+            let k = next_int t in
+            let avps = get_avps m in
+            Buffer.add_string b "G "; Buffer.add_string b (string_of_int (List.length avps));
+            List.iter (fun a -> Buffer.add_char b ' '; pr_getters b a) avps;
+            Buffer.add_string b " Q";
+            for _ = 1 to k do
+              let c = next_n t in
+              (match get_avp m c with
+               | Some a -> (match index_of_phys a avps 0 with
+                            | Some i -> Buffer.add_char b ' '; Buffer.add_string b (string_of_int i)
+                            | None -> Buffer.add_string b " foreign")
+               | None -> Buffer.add_string b " none")
+            done
+        | Err -> Buffer.add_string b "R err"
+        | Panic -> Buffer.add_string b "PANIC"
+        | OutOfFuel -> Buffer.add_string b "OUTOFFUEL")
+   | "W" ->
+       let ds = get_dict (next t) in
+       let (start, ops) = parse_history t in
+       (match hstart_msg (nat_of_int !lim) ds.ds_avps start with
+        | Ok m0 ->
+            let (m, _) = hrun ds.ds_avps m0 ops in
+            let budget = next_n t in
+            let n = next_int t in
+            let behav = parse_list t (fun t -> let s = next t in if s = "i" then None else Some (n_of_hex s)) n in
+            let w = { w_budget = budget; w_behav = behav } in
+            (match enc_to m w with
+             | Some (ok, acc) ->
+                 Buffer.add_string b (if ok then "W ok " else "W err ");
+                 (match acc with
+                  | Some bs -> Buffer.add_string b (Printf.sprintf "%x " (List.length bs));
+                      Buffer.add_string b (tok_of_bytes (if List.length bs <= 70000 then bs else List.filteri (fun i _ -> i < 64) bs))
+                  | None -> Buffer.add_string b "? ?");
+                 Buffer.add_string b " LEN "; Buffer.add_string b (hex_of_n m.m_len)
+             | None -> Buffer.add_string b "OUTOFFUEL");
+            Buffer.add_string b " ## ENCOK "; Buffer.add_string b (bool01 (msg_enc_ok m));
+            Buffer.add_string b " CAPS "; Buffer.add_string b (bool01 (caps_posb w));
+            Buffer.add_string b " WD "; Buffer.add_string b (bool01 (msg_wireb m))
         | Err -> Buffer.add_string b "R err"
         | Panic -> Buffer.add_string b "PANIC"
         | OutOfFuel -> Buffer.add_string b "OUTOFFUEL")
